@@ -410,6 +410,42 @@ func answerSpecs() []answerSpec {
 	out = append(out, q(func(qn string) []dns.RR {
 		return []dns.RR{&dns.NS{Hdr: rrHdr(qn, dns.TypeNS), Ns: "ns.example.org."}, &dns.SOA{Hdr: rrHdr(qn, dns.TypeSOA), Ns: "a.", Mbox: "b."}}
 	}, "unexpected-types"))
+	// two-record answers: every ordered pair of short record shapes (the client sorts the records
+	// of an answer by their order tag, so the tag of every record is looked at as soon as there
+	// are two): TXT with its strings split in every way, records shorter than their tag, targets
+	// outside the domain, unexpected types
+	type shape struct {
+		name string
+		rr   func(qn string) dns.RR
+	}
+	var shapes []shape
+	for _, txt := range [][]string{{}, {""}, {"a"}, {"ab"}, {"", "ab"}, {"a", "b"}, {"", "", "abcd"}, {"a", "bcdefgh"}, {"aavabc"}, {"aa", "vabc"}} {
+		txt := txt
+		shapes = append(shapes, shape{fmt.Sprintf("TXT%q", txt), func(qn string) dns.RR { return &dns.TXT{Hdr: rrHdr(qn, dns.TypeTXT), Txt: txt} }})
+	}
+	for _, n := range []int{0, 1, 2, 3} {
+		data := strings.Repeat("v", n)
+		shapes = append(shapes,
+			shape{fmt.Sprintf("NULL%d", n), func(qn string) dns.RR { return &dns.NULL{Hdr: rrHdr(qn, 10), Data: data} }},
+			shape{fmt.Sprintf("PRIVATE%d", n), func(qn string) dns.RR {
+				return &dns.PrivateRR{Hdr: rrHdr(qn, util.TypeSocketAce), Data: &util.SocketAcePrivate{Data: []byte(data)}}
+			}})
+	}
+	shapes = append(shapes,
+		shape{"A", func(qn string) dns.RR { return &dns.A{Hdr: rrHdr(qn, dns.TypeA), A: net.IPv4(0, 1, 2, 3)} }},
+		shape{"AAAA", func(qn string) dns.RR { return &dns.AAAA{Hdr: rrHdr(qn, dns.TypeAAAA), AAAA: net.IP(make([]byte, 16))} }},
+		shape{"CNAME.", func(qn string) dns.RR { return &dns.CNAME{Hdr: rrHdr(qn, dns.TypeCNAME), Target: "."} }},
+		shape{"CNAMEa", func(qn string) dns.RR { return &dns.CNAME{Hdr: rrHdr(qn, dns.TypeCNAME), Target: "a.t.example.org."} }},
+		shape{"MXother", func(qn string) dns.RR { return &dns.MX{Hdr: rrHdr(qn, dns.TypeMX), Preference: 10, Mx: "q.other.org."} }},
+		shape{"SRVab", func(qn string) dns.RR { return &dns.SRV{Hdr: rrHdr(qn, dns.TypeSRV), Priority: 1, Target: "ab."} }},
+		shape{"NS", func(qn string) dns.RR { return &dns.NS{Hdr: rrHdr(qn, dns.TypeNS), Ns: "ns.example.org."} }},
+	)
+	for _, a := range shapes {
+		for _, b := range shapes {
+			a, b := a, b
+			out = append(out, q(func(qn string) []dns.RR { return []dns.RR{a.rr(qn), b.rr(qn)} }, "pair:"+a.name+"+"+b.name))
+		}
+	}
 	// every 1- and 2-byte payload in a NULL record after a valid order tag
 	for a := 0; a < 256; a++ {
 		a := a
